@@ -19,6 +19,15 @@ CLAIMED = {
         "Minute pairs are a boundary-value subset of 1440^2 (00:00, 00:01, 01:00, 11:59, 12:00, 23:59); "
         "well-formed HH:MM strings only; TLC's evaluation of the spec is the oracle.",
         "6/C14"),
+    "C15": (
+        "TLA+ spec Export.tla: TLC checks Import(Export(t)) = Live(t) modulo the id map for every tree of the model; sampled "
+        "trees replayed through client.ExportNodes / ImportNodes on real instances and compared with the predicted tree",
+        "Tree shapes, key spellings, tombstones, id references and deleted children are enumerated by TLC; the real "
+        "export/import is exercised on sampled trees with YAML-significant texts, same instance and across instances, "
+        "with and without id preservation.",
+        "Trees up to 4 nodes / depth 3; texts from a pool; one known finding (texts YAML reads as null / special floats / "
+        "sequence entries).",
+        "6/C15"),
     "C16": (
         "TLA+ spec Cobs.tla: TLC checks in-order/exactly-once delivery and damage containment over all "
         "device-read interleavings; TLC-generated wires replayed into the real CobsWrapper under all segmentations",
